@@ -23,6 +23,8 @@ enum Act {
     /// a critical section over memory shared with the interrupt handler: unlocked peek, locked
     /// take inside without_interrupts, all in one function (plain loads and stores)
     Shared(Option<(u8, u64)>),
+    /// n directly nested calls through a recursive function (markers only at the bottom)
+    Deep { id: u32, n: u32 },
     Enable,
     Disable,
     AreEnabled,
@@ -40,6 +42,7 @@ fn parse(v: &Value) -> Act {
         "pair" => Act::Pair,
         "nest2" => Act::Nest2 { id: v["id"].as_u64().unwrap_or(0) as u32 },
         "probe3" => Act::Probe3,
+        "deep" => Act::Deep { id: v["id"].as_u64().unwrap_or(0) as u32, n: v["n"].as_u64().unwrap_or(1) as u32 },
         "shared" => Act::Shared(v["vector"].as_u64().map(|x| (x as u8, v["after"].as_u64().unwrap_or(1)))),
         "enable" => Act::Enable,
         "disable" => Act::Disable,
@@ -55,7 +58,7 @@ fn gen_body(rng: &mut Rng, depth: u32, next_id: &mut u32, top: bool) -> Vec<Valu
     let n = if top { rng.range(1, 6) } else { rng.below(4) };
     let mut out = vec![];
     for _ in 0..n {
-        let k = if top { rng.weighted(&[6, 0, 2, 2, 2, 3, 3, 2, 1, 2, 2, 3]) } else { rng.weighted(&[4, 3, 0, 0, 2, 0, 3, 2, 2, 2, 2, 0]) };
+        let k = if top { rng.weighted(&[60, 0, 20, 20, 20, 30, 30, 20, 10, 20, 20, 30, 3]) } else { rng.weighted(&[4, 3, 0, 0, 2, 0, 3, 2, 2, 2, 2, 0, 0]) };
         out.push(match k {
             0 if depth < 6 => {
                 let id = *next_id;
@@ -76,6 +79,11 @@ fn gen_body(rng: &mut Rng, depth: u32, next_id: &mut u32, top: bool) -> Vec<Valu
                 json!({"op": "nest2", "id": id})
             }
             10 => json!({"op": "probe3"}),
+            12 => {
+                let id = *next_id;
+                *next_id += 1;
+                json!({"op": "deep", "id": id, "n": *rng.pick(&[200u64, 255, 256, 257, 258, 300, 513])})
+            }
             11 => {
                 // usually with an interrupt that arrives right after the flag has been read
                 if rng.chance(70) {
@@ -162,6 +170,19 @@ fn isr(_vector: u8) {
     }
 }
 
+/// n nested without_interrupts sections; only the innermost one is marked
+fn deep(n: u32, id: u32, reached: &mut u32) {
+    interrupts::without_interrupts(|| {
+        *reached += 1;
+        if n > 1 {
+            deep(n - 1, id, reached);
+        } else {
+            mark(id * 2);
+            mark(id * 2 + 1);
+        }
+    })
+}
+
 fn exec(acts: &[Act], obs: &mut Obs) {
     for a in acts {
         match a {
@@ -185,6 +206,13 @@ fn exec(acts: &[Act], obs: &mut Obs) {
                     interrupts::enable();
                     work(2);
                     interrupts::disable();
+                }
+            }
+            Act::Deep { id, n } => {
+                let mut reached = 0u32;
+                deep(*n, *id, &mut reached);
+                if reached != *n {
+                    obs.rets_ok = false;
                 }
             }
             Act::Nest2 { id } => {
@@ -296,6 +324,10 @@ impl Model {
                         self.seq.push(Ev::Cli);
                     }
                 }
+                Act::Deep { id, .. } => {
+                    self.seq.push(Ev::Mark(id * 2));
+                    self.seq.push(Ev::Mark(id * 2 + 1));
+                }
                 Act::Nest2 { id } => {
                     let inner = Act::Wi { id: id + 1, ret: 0, body: vec![] };
                     let outer = Act::Wi { id: *id, ret: 0, body: vec![inner] };
@@ -330,7 +362,7 @@ impl Model {
 }
 
 fn has_wi(acts: &[Act]) -> bool {
-    acts.iter().any(|a| matches!(a, Act::Wi { .. } | Act::Pair | Act::AreEnabled | Act::Nest2 { .. } | Act::Probe3 | Act::Shared(_)))
+    acts.iter().any(|a| matches!(a, Act::Wi { .. } | Act::Pair | Act::AreEnabled | Act::Nest2 { .. } | Act::Probe3 | Act::Shared(_) | Act::Deep { .. }))
 }
 
 pub fn run(rp: &Replay, st: &mut Stats) -> Option<Violation> {
@@ -349,7 +381,7 @@ pub fn run(rp: &Replay, st: &mut Stats) -> Option<Violation> {
     }
     w.cpu.rflags_sys = rp.config["rflags_sys"].as_u64().unwrap_or(0);
     w.cpu.trace.reserve(4096);
-    w.mon_budget = 150_000;
+    w.mon_budget = 400_000;
     st.steps += acts.len() as u64;
 
     // one top-level action at a time, so that a violation has a step index
@@ -484,6 +516,7 @@ pub fn run(rp: &Replay, st: &mut Stats) -> Option<Violation> {
             Act::Nest2 { .. } => 9,
             Act::Probe3 => 10,
             Act::Shared(_) => 11,
+            Act::Deep { .. } => 12,
             Act::Enable => 2,
             Act::Disable => 3,
             Act::AreEnabled => 4,
